@@ -558,7 +558,10 @@ func (x *c35Run) fail(key, format string, args ...any) {
 func (x *c35Run) lastIllegal() string {
 	for i := len(x.steps) - 1; i >= 0; i-- {
 		if x.steps[i].Illegal {
-			return x.steps[i].Kind + " " + x.steps[i].Variant
+			if x.steps[i].Variant != "" {
+				return x.steps[i].Kind + "/" + x.steps[i].Variant
+			}
+			return x.steps[i].Kind
 		}
 	}
 	return "no illegal step"
